@@ -247,6 +247,11 @@ func MutateHost(t *rapid.T, host string) string {
 		if len(host) > 1 {
 			return host[:len(host)-1]
 		}
+	case 14:
+		// not a host:port and not an IPv6 literal either: nothing is stripped from these, so they equal no registered hostname
+		if host != "" {
+			return Pick(t, []string{host + ":8080:80", "[" + host + "]", "[" + host + "]:80"}, "oddhost")
+		}
 	case 13:
 		// exactly one trailing dot is dropped, once: a second one stays and makes the last label empty
 		if host != "" {
